@@ -21,12 +21,15 @@ from __future__ import annotations
 import argparse
 import json
 import logging
+import multiprocessing
 import multiprocessing.process
 import os
 import sys
 import tempfile
 import threading
 import traceback
+
+WATCHDOG_S = 25
 
 
 def scenario():
@@ -87,19 +90,35 @@ def one_run(kind, inject=None, record=None, second=None, occurrence=1):
         outcome = None
         multiprocessing.process.BaseProcess.start = start_spy
         serial_mod.run_or_load_task = rolt_spy
+        import signal
+
+        class Hang(BaseException):
+            pass
+
+        def on_alarm(signum, frame):
+            raise Hang()
+        old_handler = signal.signal(signal.SIGALRM, on_alarm)
         sys.settrace(tracer)
         try:
             state['armed'] = True
+            signal.setitimer(signal.ITIMER_REAL, WATCHDOG_S)        # watchdog: a drain loop that never ends is a finding, not a stuck harness
             try:
                 lab.run_tasks(tasks, disable_progress=True, disable_top=True)
                 outcome = 'return'
             except KeyboardInterrupt:
                 outcome = 'KeyboardInterrupt'
+            except Hang:
+                outcome = f'no return within {WATCHDOG_S}s (run_tasks kept waiting after the interrupt)'
             except BaseException as ex:     # noqa
                 outcome = f'{type(ex).__name__}: {ex}'[:200]
         finally:
+            signal.setitimer(signal.ITIMER_REAL, 0)
             state['armed'] = False
             sys.settrace(None)
+            signal.signal(signal.SIGALRM, old_handler)
+            for ch in multiprocessing.active_children():
+                if 'SyncManager' not in type(ch).__name__ and outcome and outcome.startswith('no return'):
+                    ch.terminate()
             multiprocessing.process.BaseProcess.start = orig_start
             serial_mod.run_or_load_task = orig_rolt
         cache_problem = None
